@@ -28,6 +28,11 @@ class InjectedTpm(OSError):
     pass
 
 
+class InjectedIo(PermissionError):
+    """Raised by the patched file operation *inside* TpmFile (open / os.remove)."""
+    pass
+
+
 # ------------------------------------------------------------------ environment
 
 def _pool_file():
@@ -102,19 +107,61 @@ class Injector:
         self.fired = False
         self.log = []
 
-    def begin(self, armed=None):
+    def begin(self, armed=None, mode='call'):
         self.count = 0
         self.armed = armed
+        self.mode = mode
         self.fired = False
         self.log = []
 
-    def point(self, kind, exc):
+    def point(self, kind, exc, tpm=False):
+        """Returns True when the call has to be made with the file operations inside TpmFile failing
+        (mode 'io'); raises when the call itself fails (mode 'call')."""
         self.count += 1
         self.log.append(kind)
         if self.armed is not None and self.count == self.armed:
             self.armed = None
+            if tpm and self.mode == 'io':
+                return True
             self.fired = True
             raise exc('injected failure at fault point %d (%s)' % (self.count, kind))
+        return False
+
+
+class _OsShim:
+    def __init__(self, real, inj):
+        self._real = real
+        self._inj = inj
+
+    def remove(self, path, *a, **kw):
+        self._inj.fired = True
+        raise InjectedIo(13, 'injected: permission denied', path)
+
+    def __getattr__(self, k):
+        return getattr(self._real, k)
+
+
+class _IoFailure:
+    """While active, open() and os.remove() as seen by ndn.security.tpm.tpm_file raise PermissionError."""
+    def __init__(self, inj):
+        self.inj = inj
+
+    def __enter__(self):
+        from ndn.security.tpm import tpm_file
+        self.mod = tpm_file
+        self.real_os = tpm_file.os
+        inj = self.inj
+
+        def failing_open(path, *a, **kw):
+            inj.fired = True
+            raise InjectedIo(13, 'injected: permission denied', path)
+        tpm_file.os = _OsShim(self.real_os, inj)
+        tpm_file.open = failing_open
+
+    def __exit__(self, *exc):
+        self.mod.os = self.real_os
+        del self.mod.open
+        return False
 
 
 class ConnProxy:
@@ -160,19 +207,22 @@ class TpmProxy:
         self._inj = inj
         self._on_generate = on_generate
 
+    def _run(self, kind, fn):
+        if self._inj.point(kind, InjectedTpm, tpm=True):
+            with _IoFailure(self._inj):
+                return fn()
+        return fn()
+
     def generate_key(self, id_name, key_type='rsa', **kw):
-        self._inj.point('tpm.generate_key', InjectedTpm)
-        r = self._t.generate_key(id_name, key_type, **kw)
+        r = self._run('tpm.generate_key', lambda: self._t.generate_key(id_name, key_type, **kw))
         self._on_generate(r[0], bytes(r[1]), key_type)
         return r
 
     def get_signer(self, key_name, key_locator_name=None):
-        self._inj.point('tpm.get_signer', InjectedTpm)
-        return self._t.get_signer(key_name, key_locator_name)
+        return self._run('tpm.get_signer', lambda: self._t.get_signer(key_name, key_locator_name))
 
     def delete_key(self, key_name):
-        self._inj.point('tpm.delete_key', InjectedTpm)
-        return self._t.delete_key(key_name)
+        return self._run('tpm.delete_key', lambda: self._t.delete_key(key_name))
 
     def __getattr__(self, k):
         return getattr(self._t, k)
@@ -208,6 +258,7 @@ class Store:
         self.cert = {}       # cert slot -> {'name': FormalName, 'data': bytes}
         self.pending_slot = None
         self._signer_memo = {}
+        self._regen = None
         self.held = []       # signer objects handed out earlier, with what they were when obtained
         self.kc = None
         self.open()
@@ -242,9 +293,38 @@ class Store:
 
     def _generated(self, key_name, pub, key_type):
         slot = self.pending_slot
-        self.key[slot] = {'name': list(key_name), 'pub': pub, 'type': key_type}
+        info = {'name': list(key_name), 'pub': pub, 'type': key_type}
+        old = self.key.get(slot)
+        if old is not None and self.Name.to_bytes(old['name']) == self.Name.to_bytes(key_name) and self._key_listed(slot):
+            # a private key was generated under the name of a key that is listed (explicit key_id): the listed
+            # key keeps its record unless the call goes on to replace the row as well
+            self._regen = (slot, info)
+            return
+        self.key[slot] = info
         self.cert.pop((slot, 1), None)
         self.cert.pop((slot, 2), None)
+
+    def _key_listed(self, k):
+        try:
+            self.kc[self.id_name(k[0])][self.key[k]['name']]
+            return True
+        except Exception:
+            return False
+
+    def check_keypair(self, k):
+        """Does the private-key file of slot k fit the public key the store lists for it? (public API:
+        a plain TpmFile on the directory signs a probe, the listed key_bits verify it)"""
+        from ndn.security import TpmFile
+        from ndn.encoding import make_data, MetaInfo, parse_data
+        if self.kc is None or k not in self.key:
+            return None
+        try:
+            kv = self.kc[self.id_name(k[0])][self.key[k]['name']]
+            signer = TpmFile(self.tpm_dir).get_signer(self.key[k]['name'])
+        except KeyError:
+            return None
+        _, _, _, sig = parse_data(make_data('/probe/c15/pair', MetaInfo(), b'probe', signer=signer))
+        return self._verifies({'pub': bytes(kv.key_bits), 'type': self.key[k]['type']}, sig)
 
     # -- names
     def id_name(self, i):
@@ -281,22 +361,52 @@ class Store:
         return name, bytes(data)
 
     # -- operations
-    def call(self, o, fault=None):
+    def _second_instance(self):
+        from ndn.security import KeychainSqlite3, TpmFile
+        if self.kc.conn.in_transaction:
+            raise tlc.MachineryError('the model lets the second instance write while this one has a transaction open')
+        return KeychainSqlite3(self.pib, TpmFile(self.tpm_dir))
+
+    def call(self, o, fault=None, mode='call'):
         """Perform model operation o (dict with op,i,k,c,t,by,loc). Returns the result dict
-        {'out': ok|keyerr|integrity|fault|error:<Type>, 'fired': bool, + signer observations}."""
+        {'out': ok|keyerr|integrity|attrerr|fault|error:<Type>, 'fired': bool, 'issues': [...], + signer observations}."""
         kc = self.kc
         op = o['op']
-        res = {'out': 'ok'}
-        self.inj.begin(fault)
+        via = o['loc'] if op != 'GetSigner' else 'none'
+        res = {'out': 'ok', 'issues': []}
+        self.inj.begin(fault, mode)
+        self._regen = None
+        kc2 = None
+        N = self.Name
         try:
+            if via == 'ext':
+                kc2 = self._second_instance()
             if op == 'NewIdentity':
-                kc.new_identity(self.id_name(o['i']))
+                ret = kc.new_identity(self.id_name(o['i']))
+                if N.to_bytes(ret.name) != N.to_bytes(self.id_name(o['i'])):
+                    res['issues'].append(('NewIdentity/returned-object', 'new_identity returned another identity'))
             elif op == 'TouchIdentity':
                 self.pending_slot = o['k']
-                kc.touch_identity(self.id_name(o['i']))
+                ret = kc.touch_identity(self.id_name(o['i']))
+                if N.to_bytes(ret.name) != N.to_bytes(self.id_name(o['i'])):
+                    res['issues'].append(('TouchIdentity/returned-object', 'touch_identity returned another identity'))
             elif op == 'NewKey':
                 self.pending_slot = o['k']
-                kc.new_key(self.id_name(o['i']), key_type=o['t'])
+                kw = {}
+                if o['by'] == 'keyid':
+                    if o['k'] in self.key:          # the id of a listed key, or of a file left by a failed new_key
+                        kw['key_id'] = bytes(self.key[o['k']]['name'][-1])
+                    else:
+                        _state['keyid'] += 1
+                        kid = 'x%d-%d' % (o['k'][1], _state['keyid'])
+                        kw['key_id'] = kid if o['k'][1] % 2 else bytes(N.from_str('/' + kid)[0])
+                if via == 'view':
+                    ret = kc[self.id_name(o['i'])].new_key(o['t'])
+                else:
+                    ret = kc.new_key(self.id_name(o['i']), key_type=o['t'], **kw)
+                if o['k'] not in self.key or N.to_bytes(ret.name) != N.to_bytes(self.key[o['k']]['name']) \
+                        or bytes(ret.key_bits) != (self._regen[1] if self._regen else self.key[o['k']])['pub']:
+                    res['issues'].append(('NewKey/returned-object', 'new_key returned a key other than the one it generated'))
             elif op == 'ImportCert':
                 if (o['k'], 2) in self.cert and self._listed(o['k'], (o['k'], 2)):
                     name, data = self.cert[(o['k'], 2)]['name'], self.cert[(o['k'], 2)]['data']
@@ -311,11 +421,18 @@ class Store:
                 k = o['c'][0]
                 kc[self.id_name(k[0])][self.key_name(k)].set_default_cert(self.cert_name(o['c']))
             elif op == 'DelCert':
-                kc.del_cert(self.cert_name(o['c']))
+                k = o['c'][0]
+                if via == 'view':
+                    kc[self.id_name(k[0])][self.key_name(k)].del_cert(self.cert_name(o['c']))
+                else:
+                    (kc2 or kc).del_cert(self.cert_name(o['c']))
             elif op == 'DelKey':
-                kc.del_key(self.key_name(o['k']))
+                if via == 'view':
+                    kc[self.id_name(o['k'][0])].del_key(self.key_name(o['k']))
+                else:
+                    (kc2 or kc).del_key(self.key_name(o['k']))
             elif op == 'DelIdentity':
-                kc.del_identity(self.id_name(o['i']))
+                (kc2 or kc).del_identity(self.id_name(o['i']))
             elif op == 'GetSigner':
                 res.update(self._get_signer(o))
             elif op == 'Close':
@@ -323,23 +440,38 @@ class Store:
                 self.close()
             else:
                 raise ValueError(op)
-        except InjectedDb:
+        except (InjectedDb, InjectedTpm, InjectedIo):
             res['out'] = 'fault'
-        except InjectedTpm:
-            res['out'] = 'fault'
+        except tlc.MachineryError:
+            raise
         except KeyError:
             res['out'] = 'keyerr'
         except sqlite3.IntegrityError:
             res['out'] = 'integrity'
+        except AttributeError as e:
+            res['out'] = 'attrerr'
+            res['detail'] = str(e)[:200]
         except Exception as e:  # noqa
             res['out'] = 'error:' + type(e).__name__
             res['detail'] = str(e)[:200]
+        finally:
+            if kc2 is not None:
+                kc2.shutdown()
         res['fired'] = self.inj.fired
         res['points'] = self.inj.count
         res['log'] = list(self.inj.log)
         self.inj.begin(None)
+        if self._regen is not None and res['out'] == 'ok':
+            slot, info = self._regen
+            self.key[slot] = info
+            self.cert.pop((slot, 1), None)
+            self.cert.pop((slot, 2), None)
         if op in ('NewKey', 'TouchIdentity') and self.kc is not None:
             self._learn_selfsigned(o['k'])
+            if tuple(o['k']) in self.key and self.check_keypair(tuple(o['k'])) is False:
+                res['issues'].append(('%s/private-key-mismatch' % op,
+                                      'after %s the private-key file of key %s does not fit the public key listed for it'
+                                      % (op, kstr(o['k']))))
         self.pending_slot = None
         return res
 
@@ -358,6 +490,14 @@ class Store:
             a['key'] = self.key_name(o['k'])
         elif o['by'] == 'cert':
             a['cert'] = self.cert_name(o['c'])
+        if o['t'] == 'obj':      # the view objects themselves as signing arguments
+            if o['by'] == 'identity':
+                a['identity'] = self.kc[self.id_name(o['i'])]
+            elif o['by'] == 'key':
+                a['key'] = self.kc[self.id_name(o['k'][0])][self.key_name(o['k'])]
+            elif o['by'] == 'cert':
+                k = o['c'][0]
+                a['cert'] = self.kc[self.id_name(k[0])][self.key_name(k)][self.cert_name(o['c'])]
         if o['loc'] == 'custom':
             a['key_locator'] = CUSTOM_LOC
         return a
@@ -567,8 +707,11 @@ class Store:
                 proj['certs'] += cs
                 proj['dC'] += [c for c in cs if kv[self.cert_name(c)].is_default]
                 for c in cs:
-                    if bytes(kv[self.cert_name(c)].data) != self.cert[c]['data']:
+                    co = kv[self.cert_name(c)]
+                    if bytes(co.data) != self.cert[c]['data']:
                         issues.append(('Key/cert-data', 'certificate view returns other bytes than stored'))
+                    if bytes(N.to_bytes(co.key)) != bytes(N.to_bytes(self.key[k]['name'])):
+                        issues.append(('Certificate/key', 'certificate object names another key than the one it was looked up in'))
                 hd = kv.has_default_cert()
                 try:
                     dc = certb.get(N.to_bytes(kv.default_cert().name), '?')
